@@ -161,6 +161,8 @@ class AccfgGen:
                 self.count += 2
                 head = [self.if_node(inner, depth + 1, True), self.stmt_sl(inner)]
             node["body"] = head + self.stmts(r.randint(1, 3), inner, depth + 1, True)
+            if p.get("while_loops") and not node["carry"] and r.random() < p["while_loops"]:
+                node["as_while"] = True  # the same counted loop written as scf.while (a region op state tracing does not know)
             for c in node["carry"]:
                 # yield something computed in the body (or the argument itself / an outer value)
                 c[2] = r.choice(inner[-4:] + [c[0]])
@@ -335,6 +337,18 @@ def emit(ast, acc_names=None, vty="i32", decls=()) -> str:
             e(ind, f'"test.op"({", ".join(s["args"])}) {{"vtag" = {s["tag"]} : i64}} : ({tys}) -> ()')
         elif k == "pure":
             e(ind, f'{s["name"]} = arith.{s["op"]} {s["a"]}, {s["b"]} : {vty}')
+        elif k == "for" and s.get("as_while") and not s["carry"]:
+            iv = s["iv"]
+            e(ind, f'{iv}_end = scf.while ({iv}_a = {s["lb"]}) : (index) -> (index) {{')
+            e(ind + 1, f'{iv}_c = arith.cmpi slt, {iv}_a, {s["ub"]} : index')
+            e(ind + 1, f"scf.condition({iv}_c) {iv}_a : index")
+            e(ind, "} do {")
+            e(ind, f"^bb0({iv} : index):")
+            e(ind + 1, f'{s["ic"]} = arith.index_cast {iv} : index to {vty}')
+            stmts(ind + 1, s["body"])
+            e(ind + 1, f'{iv}_n = arith.addi {iv}, {s["step"]} : index')
+            e(ind + 1, f"scf.yield {iv}_n : index")
+            e(ind, "}")
         elif k == "for":
             head = f'scf.for {s["iv"]} = {s["lb"]} to {s["ub"]} step {s["step"]}'
             if s["carry"]:
